@@ -283,6 +283,23 @@ class NodeInt(int):
         return '<int node %d>' % int(self)
 
 
+class PathVal(list):
+    """a node path as the package's NodePath presents itself to the code that uses it: a list of components that prints as the
+    joined path text and is hashable (but never equal to that text)"""
+
+    def __init__(self, components, text):
+        super().__init__(components)
+        self.text = text
+
+    def __str__(self):
+        return self.text
+
+    __repr__ = __str__
+
+    def __hash__(self):
+        return hash(tuple(self))
+
+
 class Yielded(Exception):
     """evaluation reached a `yield` (used to evaluate the set-up half of a context manager)"""
 
@@ -971,6 +988,8 @@ class FDE:
                     return v
                 raise Unsupported('class attribute %s.%s is not a literal' % (owner, attr))
             t = self.repo.resolve(base.cls, attr)
+            if t is not None and t.is_property and attr not in self.stubs and 'property' in t.decorators:
+                return self._invoke(t, [base], {})       # a plain @property: reading the attribute runs the getter
             if t is not None:
                 return Bound(base, t, attr, False)
             if attr == '__dict__':
